@@ -7,37 +7,65 @@ from . import registry as R
 from .core import run_property
 
 
-def _step(prop, tier, seed, actions, extra_assume=()):
-    return run_property(prop, tier, R.step_runs(prop, tier, actions), explanation=R.EXPL,
-                        assumptions=R.STEP_ASSUME + list(extra_assume), seed=seed)
+G2_, G3_ = (2, 1, 2), (3, 1, 2)
+
+
+def _step(prop, tier, seed, actions, extra_assume=(), base=(), seg=()):
+    runs = R.step_runs(prop, tier, actions) + R.base_runs(prop, tier, base) + R.seg_runs(prop, tier, list(seg))
+    return run_property(prop, tier, runs, explanation=R.EXPL,
+                        assumptions=R.STEP_ASSUME + list(extra_assume) + (R.SEG_ASSUME if seg else []), seed=seed,
+                        stubs=R.SEG_STUBS if seg else ["networkx.DiGraph -> SymDiGraph",
+                                                       "TrackAnnotator lookups -> LazyIdMap"])
+
+
+def _paint(tier, n_quick=2):
+    return [("paint", n_quick, G2_, {})] if tier == "quick" else [("paint", 3, G2_, {}), ("paint", 2, G3_, {})]
 
 
 def C03(tier, seed):
-    return _step("C03", tier, seed, R.USER[:5])
+    return _step("C03", tier, seed, R.USER[:5], seg=_paint(tier))
 
 
 def C04(tier, seed):
-    return _step("C04", tier, seed, R.USER[:5])
+    return _step("C04", tier, seed, R.USER[:5], base=("construct",), seg=_paint(tier))
 
 
 def C05(tier, seed):
-    return _step("C05", tier, seed, R.USER[:5])
+    return _step("C05", tier, seed, R.USER[:5], base=("construct",), seg=_paint(tier))
 
 
 def C06(tier, seed):
-    return _step("C06", tier, seed, R.USER)
+    return _step("C06", tier, seed, R.USER, base=("construct", "query"), seg=_paint(tier))
 
 
 def C11(tier, seed):
-    return _step("C11", tier, seed, R.USER)
+    seg = [("paint", 3, G2_, {})] + ([] if tier == "quick" else [("paint", 3, G3_, {"iou": True}),
+                                                                 ("UserAddNode", 3, G2_, {})])
+    return _step("C11", tier, seed, R.USER, seg=seg)
 
 
 def C20(tier, seed):
-    return _step("C20", tier, seed, R.USER)
+    from harness import history
+    from .core import Run
+
+    n = 5 if tier == "quick" else 7
+    runs = [Run(f"history_algebra:len<={n}", history.harness, dict(length=n), history.replay, ("completed",),
+                f"undo/redo refresh counts over every op sequence of length {n}")]
+    runs += R.step_runs("C20", tier, R.USER) + R.seg_runs("C20", tier, _paint(tier, 3))
+    return run_property("C20", tier, runs, explanation=R.EXPL, assumptions=R.STEP_ASSUME + R.SEG_ASSUME, seed=seed,
+                        stubs=R.SEG_STUBS)
 
 
 def C01(tier, seed):
-    return _step("C01", tier, seed, R.USER + R.PRIMS, extra_assume=[
+    if tier == "quick":
+        seg = [("paint", 2, G2_, {}), ("UserDeleteNode", 2, G2_, {"all_rp": True, "scale": "sym"}),
+               ("UserAddEdge", 3, G3_, {"iou": True})]
+    else:
+        seg = [("paint", 3, G2_, {"all_rp": True, "scale": "sym"}), ("paint", 2, G3_, {"iou": True}),
+               ("paint", 2, (2, 1, 1, 2), {}), ("UserDeleteNode", 3, G3_, {"iou": True, "all_rp": True}),
+               ("UserAddNode", 3, G2_, {"iou": True}), ("UserAddEdge", 4, G3_, {"iou": True}),
+               ("UserSwapPredecessors", 4, G3_, {"iou": True})]
+    return _step("C01", tier, seed, R.USER + R.PRIMS, seg=seg, extra_assume=[
         "primitive preconditions as documented: AddNode adds a new node, DeleteNode has no incident edges, "
         "UpdateTrackIDs does not reuse a tracklet id present in the start node's component"])
 
